@@ -9,6 +9,7 @@ package rafthttp
 
 import (
 	"io"
+	"net/http"
 
 	"github.com/youzan/ZanRedisDB/pkg/types"
 	"github.com/youzan/ZanRedisDB/raft/raftpb"
@@ -84,3 +85,33 @@ func VerifIsLinkHeartbeatMessage(m *raftpb.Message) bool { return isLinkHeartbea
 // stream when that stream is working (MsgSnap goes to the pipeline, MsgApp to
 // msgappv2, everything else to the message stream).
 func VerifPickIsMsgAppV2(m raftpb.Message) bool { return !isMsgSnap(m) && isMsgApp(m) }
+
+// VerifStreamWriter drives the real streamWriter (the goroutine of
+// streamWriter.run) with outgoing connections supplied by the harness.
+type VerifStreamWriter struct{ sw *streamWriter }
+
+// VerifStartStreamWriter starts a streamWriter towards peer exactly as
+// startPeer does (own peer status and peer statistics); r receives the
+// writer's ReportUnreachable calls.
+func VerifStartStreamWriter(peer uint64, r Raft) *VerifStreamWriter {
+	id := types.ID(peer)
+	return &VerifStreamWriter{sw: startStreamWriter(id, newPeerStatus(id), &stats.PeerStats{}, r)}
+}
+
+// Attach hands a new outgoing connection to the writer, as
+// streamHandler.ServeHTTP does through peer.attachOutgoingConn: msgAppV2
+// selects the stream type. It returns false when the writer is stopped.
+func (w *VerifStreamWriter) Attach(msgAppV2 bool, wr io.Writer, fl http.Flusher, cl io.Closer) bool {
+	t := streamTypeMessage
+	if msgAppV2 {
+		t = streamTypeMsgAppV2
+	}
+	return w.sw.attach(&outgoingConn{t: t, Writer: wr, Flusher: fl, Closer: cl})
+}
+
+// Writec exposes streamWriter.writec: the channel peer.send puts a message
+// into, and whether a connection is attached and working.
+func (w *VerifStreamWriter) Writec() (chan<- raftpb.Message, bool) { return w.sw.writec() }
+
+// Stop stops the writer and waits for its goroutine.
+func (w *VerifStreamWriter) Stop() { w.sw.stop() }
